@@ -105,7 +105,17 @@ Uni<ItemType, UniChannelType, INSTRUMENTS, DerivedItemType> {
     }
 
     async fn close(&self, timeout: Duration) -> bool {
-        self.channel.gracefully_end_all_streams(timeout).await == 0
+        let start = std::time::Instant::now();
+        let closed = self.channel.gracefully_end_all_streams(timeout).await == 0;
+        // the streams have ended, but executors with `concurrency_limit > 1` may still have item futures in flight:
+        // wait for the executors themselves, so every accepted event is fully processed when we return
+        while closed && !self.stream_executors.is_empty() && self.finished_executors_count.load(Relaxed) < UniChannelType::MAX_STREAMS as u32 {
+            if timeout != Duration::ZERO && start.elapsed() > timeout {
+                return false
+            }
+            tokio::time::sleep(Duration::from_millis(1)).await;
+        }
+        closed
     }
 
     fn spawn_executors<OutItemType:        Send + Debug,
